@@ -31,6 +31,10 @@ list / array (edited in place afterwards) / 2-d array / scalar / another vector'
 edited in place afterwards, names given as list / numpy array / range / None / scalar; transforms built directly or by
 get_transform(name, **values), forward / backward / jacobian / backward_censored / params_sample with the returned and the
 input arrays edited in place afterwards, item / attribute reads, deepcopy / pickle of the transform.
+Twin streams: two or three live transform instances of one class, or of classes whose constructors are written alike
+(LogSinh/Manly; BoxCox1lam/BoxCox1nu/BoxCox2sym/BoxCox2; ...), assignments and read-only calls on one, every vector of
+every instance observed after each operation, plus an instance constructed after the assignments (it must start from its
+constructor defaults); no array may be shared between instances.
 A case is non-trivial when the constructor accepted and at least one operation changed the state.
 """
 import itertools
@@ -121,7 +125,7 @@ def op_from_json(o):
     return tuple(o)
 
 
-# --------------------------------------------------------------------------------------
+# ---------------------------------------------------------------------------------------
 # observation of the real objects (public getters only)
 class Snap:
     """one pass over the public getters of a vector: view (bit patterns), the arrays themselves, to_dict, invariant"""
@@ -180,8 +184,8 @@ def alias_classes(np, snaps):
     cls = []
     for j, a in enumerate(arrs):
         k = j
-        for i in range(j):
-            if arrs[i] is a or np.shares_memory(arrs[i], a):
+        for i in range(j if a.size else 0):     # a zero-length array holds nothing that could be shared
+            if arrs[i].size and (arrs[i] is a or np.shares_memory(arrs[i], a)):
                 k = i
                 break
         cls.append(k)
@@ -1007,6 +1011,152 @@ def run_transform_case(np, transform, clsname, kwargs, ops, rng_inputs):
     return " ".join(req), obs, findings, changed
 
 
+# --------------------------------------------------------------------------------------
+# several live transform instances in one process
+TWIN_GROUPS = [["LogSinh", "Manly"], ["BoxCox1lam", "BoxCox1nu", "BoxCox2sym", "BoxCox2"], ["Log", "Reciprocal"],
+               ["Sinh", "YeoJohnson", "Logit"], ["Identity", "Softmax", "Logit"]]
+
+
+def run_twin_case(np, transform, ops, inputs):
+    """ops: ("new", class, kwargs) builds one more instance, (i, top) operates on the i-th.
+    -> (request, observations, findings [(sig, what, step)], changed)"""
+    insts = []          # (object, class name, its vectors)
+    owner = []          # instance index of every vector, in world order
+    req, obs, findings = ["M"], [], []
+    changed = False
+    ws = None
+
+    def allvecs():
+        return [v for (_, _, vs) in insts for v in vs]
+    for step, op in enumerate(ops):
+        wb = ws
+        if op[0] == "new":
+            cls, kwargs = op[1], op[2]
+            t = getattr(transform, cls)(**kwargs)
+            vs = trans_vectors(t)
+            specs = [spec_of_vector(v) for v in vs]
+            req.append(":".join(["new", TKINDS.get(cls, "plain"), spec_token(specs[0]), spec_token(specs[1]),
+                                 spec_token(specs[2]) if len(specs) > 2 else "-"]))
+            insts.append((t, cls, vs))
+            owner += [len(insts) - 1] * len(vs)
+            ws = WorldSnap(np, allvecs())
+            obs.append(ws.observe("ok"))
+            who = ("params", "constants", "BC.params")
+            for j, sn in enumerate(ws.snaps[len(ws.snaps) - len(vs):]):
+                if sn.view[1] != sn.view[4] or sn.view[5] != "0":
+                    findings.append((f"transform/twin/{cls}/fresh_instance_not_at_defaults",
+                                     f"a freshly constructed {cls} does not start from its constructor defaults: {who[j]} "
+                                     f"values {sn.floats[0]} defaults {sn.floats[3]}", step))
+                if sn.inv is not None:
+                    findings.append((f"transform/twin/{cls}/fresh_instance_invariant/{sn.inv}", f"{who[j]} of a fresh {cls}", step))
+            if wb is not None and ws.views[:len(wb.views)] != wb.views:
+                findings.append((f"transform/twin/{cls}/construction_changes_other_instance",
+                                 "constructing a transform changed a vector of an existing instance", step))
+        else:
+            i, top = op
+            t, cls, vs = insts[i]
+            xin = inputs[step % len(inputs)]
+            if cls == "Softmax":
+                xin = np.array([[0.1, 0.2, 0.3], [0.05, 0.5, 0.2]])
+            out = apply_top(np, t, cls, top, xin)
+            req.append(f"{i}.{top_token(top)}")
+            ws = WorldSnap(np, allvecs())
+            obs.append(ws.observe(out))
+            if ws.views != wb.views:
+                changed = True
+            for g in range(len(ws.views)):
+                if owner[g] != i and ws.views[g] != wb.views[g]:
+                    other = insts[owner[g]][1]
+                    findings.append((f"transform/twin/{cls}->{other}/{top[0]}/other_instance_changed",
+                                     f"an operation on one {cls} changed a vector of another live instance ({other})", step))
+            if top[0] in READONLY:
+                base = owner.index(i)
+                for j in (0, 1):
+                    if ws.views[base + j] != wb.views[base + j]:
+                        findings.append((f"transform/{cls}/{top[0]}/values_changed",
+                                         "a read-only call changed what params / constants show", step))
+        for g, a in enumerate(ws.alias):          # alias classes are per array: four arrays per vector
+            if a != g and owner[a // 4] != owner[g // 4]:
+                findings.append(("transform/twin/shares_memory",
+                                 f"arrays of two different instances ({insts[owner[a // 4]][1]}, {insts[owner[g // 4]][1]}) "
+                                 "share memory", step))
+                break
+    return " ".join(req), obs, findings, changed
+
+
+def twin_valid(ops):
+    n = 0
+    for op in ops:
+        if op[0] == "new":
+            n += 1
+        elif op[0] >= n:
+            return False
+    return n > 0
+
+
+def shrink_twin(np, transform, ops, inputs, sig):
+    def fails(seq):
+        try:
+            for f in run_twin_case(np, transform, seq, inputs)[2]:
+                op = seq[f[2]]
+                if f[0] == sig and (op[0] == "new" or op[1][0] != "tpc"):
+                    return True
+        except Exception:
+            pass
+        return False
+    cur = list(ops)
+    changed = True
+    while changed:
+        changed = False
+        for i in range(len(cur)):
+            cand = cur[:i] + cur[i + 1:]
+            # dropping a "new" renumbers the instances after it
+            if cur[i][0] == "new":
+                k = sum(1 for o in cur[:i] if o[0] == "new")
+                cand = [o if o[0] == "new" else ((o[0] - 1, o[1]) if o[0] > k else o) for o in cand
+                        if o[0] == "new" or o[0] != k]
+            if twin_valid(cand) and fails(cand):
+                cur, changed = cand, True
+                break
+    return cur
+
+
+def gen_twin_ops(rng, transform):
+    r = rng.random()
+    if r < 0.35:
+        classes = [rng.choice(list(TCTOR))] * rng.choice([2, 3])
+    elif r < 0.85:
+        grp = rng.choice(TWIN_GROUPS)
+        classes = [rng.choice(grp) for _ in range(rng.choice([2, 3]))]
+    else:
+        classes = [rng.choice(list(TCTOR)) for _ in range(2)]
+    ops, specs = [], []
+
+    def new(cls):
+        kwargs = rng.choice(TCTOR[cls])
+        t0 = getattr(transform, cls)(**kwargs)
+        specs.append((spec_of_vector(t0.params), spec_of_vector(t0.constants)))
+        ops.append(("new", cls, kwargs))
+    for cls in classes:
+        new(cls)
+    for _ in range(rng.choice([3, 6, 10])):
+        i = rng.randrange(len(specs))
+        ops.append((i, gen_top(rng, *specs[i])))
+    new(rng.choice(classes))            # a fresh instance after the assignments
+    for _ in range(rng.choice([1, 3, 5])):
+        i = rng.randrange(len(specs))
+        ops.append((i, gen_top(rng, *specs[i])))
+    return ops
+
+
+def twin_json(ops):
+    return [["new", o[1], o[2]] if o[0] == "new" else [o[0], op_json(o[1])] for o in ops]
+
+
+def twin_from_json(j):
+    return [("new", o[1], o[2]) if o[0] == "new" else (int(o[0]), op_from_json(o[1])) for o in j]
+
+
 def shrink_tops(np, transform, clsname, kwargs, ops, inputs, sig):
     def fails(seq):
         try:
@@ -1104,11 +1254,38 @@ def body(ctx):
                 fops = shrink_tops(np, transform, clsname, kwargs, fops, inputs, sig)
             ctx.finding(sig, what, {"class": clsname, "kwargs": kwargs, "ops": [op_json(o) for o in fops]})
 
+    def twin_case(ops, gen="twin"):
+        try:
+            req, obs, findings, changed = run_twin_case(np, transform, ops, inputs)
+        except Exception as e:
+            ctx.finding("transform/twin/unexpected_exception", f"{type(e).__name__}: {e}", {"ops": twin_json(ops)})
+            return
+        reqs.append(req)
+        impls.append(obs)
+        cases.append({"gen": gen, "ops": twin_json(ops)})
+        classes = "+".join(o[1] for o in ops if o[0] == "new")
+        ctx.count(req, changed, f"{gen}/{classes}" if gen == "corpus" else gen, sample=None)
+        for op in ops:
+            key = "top/new" if op[0] == "new" else f"top/{op[1][0]}"
+            ctx.hist[key] = ctx.hist.get(key, 0) + 1
+        for sig, what, step in findings:
+            fops = ops[:step + 1]
+            if ops[step][0] != "new" and ops[step][1][0] == "tpc":
+                ctx.disagree(f"outside the property's operations (copy.deepcopy / pickle of the transform): {sig}: {what}",
+                             {"ops": twin_json(fops)})
+                continue
+            if sig not in shrunk:
+                shrunk.add(sig)
+                fops = shrink_twin(np, transform, fops, inputs, sig)
+            ctx.finding(sig, what, {"ops": twin_json(fops)})
+
     # ---- (0) corpus: minimised past failures, replayed first
     import json as _json
     for f in sorted((C.ROOT / "corpus" / PID).glob("*.json")):
         j = _json.loads(f.read_text())
-        if j.get("kind") == "transform":
+        if j.get("kind") == "twin":
+            twin_case(twin_from_json(j["ops"]), "corpus")
+        elif j.get("kind") == "transform":
             transform_case(j["class"], j.get("kwargs", {}), [op_from_json(o) for o in j["ops"]], "corpus")
         else:
             vector_case(spec_from_json(j["spec"]), [op_from_json(o) for o in j["ops"]], "corpus")
@@ -1169,6 +1346,9 @@ def body(ctx):
                                            rng.choice(["inside", "on_lo", "on_hi", "below", "above"])))
                 kwargs = dict(kwargs, _get_transform=via)
             transform_case(clsname, kwargs, ops)
+    # ---- (v) several live instances of the same class / of classes written alike, a fresh one after the assignments
+    for _ in range(ctx.scale(150, 3000)):
+        twin_case(gen_twin_ops(rng, transform))
     tset = set(tcases)
 
     # ---- correspondence: every observation of every step
